@@ -5,6 +5,7 @@
   clause was FALSE for declarations between powers, `(X**2).equals(4 * Y**2)`).
 -/
 import Proofs.Declared
+import Proofs.Repeat
 
 namespace Measured.C08
 open Measured
@@ -38,5 +39,20 @@ theorem once_declared_it_converts (hσ : ∀ k, σ k ≠ 0) {c c' c'' : Conv Rat
   intro hne x r hc
   obtain ⟨hu, hv⟩ := convert_declared hσ g' (q := ⟨x, A⟩) hAl hBl (by rw [ho]; exact hoff) (h1 hne) hne hc
   exact ⟨hu, by rw [hv, v1]⟩
+
+/-- **Conversions attempted in between never change the outcome of a later one** (conversions between
+    simple units, exact arithmetic): ask, do anything of the proved kinds — unit operations, consistent
+    declarations, directly settled and planner conversions —, ask again: the identical magnitude and unit.
+    (For units outside this fragment the statement is false on the pinned code: `factor_order_witness`.) -/
+theorem simple_conversion_history_free (hσ : ∀ k, σ k ≠ 0) {c c1 c' c'' : Conv Rat} (hr : Reach2 σ c)
+    {q r1 r2 : Qty Rat} {t : UId} {K K' : List Dim} {plan plan' : List (Rough Rat)}
+    (hq : q.unit < c.st.units.length) (ht : t < c.st.units.length)
+    (hsp : SimplePair σ K c q.unit t plan)
+    (h1 : CM.exec (convert q t) c = (.ok r1, c1))
+    (hsteps : Steps σ c c')
+    (hsp' : SimplePair σ K' c' q.unit t plan')
+    (h2 : CM.exec (convert q t) c' = (.ok r2, c'')) :
+    r2.mag.val = r1.mag.val ∧ r2.unit = r1.unit :=
+  simple_conversion_repeatable hσ hr hq ht hsp h1 hsteps hsp' h2
 
 end Measured.C08
